@@ -262,6 +262,43 @@ func ArgOfParam(site ssa.Instruction, fn *ssa.Function, i int) ssa.Value {
 	return nil
 }
 
+// FeasibleReturns: the returns of the same-package callee of cl that agree with what facts say about the results of
+// cl (a return whose result #j is the constant true is left out when Extract #j of cl is known false, and so on).
+func FeasibleReturns(cl *ssa.Call, facts []BoolFact) []*ssa.Return {
+	callee := cl.Call.StaticCallee()
+	if callee == nil || len(callee.Blocks) == 0 {
+		return nil
+	}
+	known := map[int]bool{}
+	for _, bf := range facts {
+		if ex, ok := bf.Subj.(*ssa.Extract); ok && ex.Tuple == ssa.Value(cl) {
+			known[ex.Index] = bf.Val
+		}
+		if bf.Subj == ssa.Value(cl) {
+			known[0] = bf.Val
+		}
+	}
+	var out []*ssa.Return
+	for _, b := range callee.Blocks {
+		ret, ok := b.Instrs[len(b.Instrs)-1].(*ssa.Return)
+		if !ok {
+			continue
+		}
+		feasible := true
+		for j, want := range known {
+			if j < len(ret.Results) {
+				if cv, isC := ConstCond(Strip(ret.Results[j])); isC && cv != want {
+					feasible = false
+				}
+			}
+		}
+		if feasible {
+			out = append(out, ret)
+		}
+	}
+	return out
+}
+
 var boundSitesMemo = map[*ssa.Function][]ssa.Instruction{}
 var boundUsedMemo = map[*ssa.Function]bool{}
 
@@ -342,9 +379,12 @@ func PredicateCmpFacts(cl *ssa.Call, val bool) []Fact {
 }
 
 // CmpFactsAt returns the comparison facts (X op Y) known at the instruction.
-func CmpFactsAt(in ssa.Instruction) []Fact {
+func CmpFactsAt(in ssa.Instruction) []Fact { return CmpFactsOf(BoolFactsAt(in)) }
+
+// CmpFactsOf: the comparisons among the boolean facts.
+func CmpFactsOf(bfs []BoolFact) []Fact {
 	var out []Fact
-	for _, bf := range BoolFactsAt(in) {
+	for _, bf := range bfs {
 		if b, ok := bf.Subj.(*ssa.BinOp); ok {
 			switch b.Op {
 			case token.EQL, token.NEQ, token.LSS, token.LEQ, token.GTR, token.GEQ:
@@ -865,6 +905,33 @@ func ErrDerives(v ssa.Value, src ValPred) bool {
 // `return false`, ...). Only facts common to all such returns are reported (compared by value identity, so in practice
 // the single-expression predicates that refactorings extract).
 func predicateImplies(cl *ssa.Call, ridx int, val bool, depth int) []BoolFact {
+	alts := predicateAlts(cl, ridx, val, depth)
+	if len(alts) == 0 {
+		return nil
+	}
+	out := alts[0]
+	for _, a := range alts[1:] {
+		var keep []BoolFact
+		for _, f := range out {
+			for _, g := range a {
+				if f.Subj == g.Subj && f.Val == g.Val {
+					keep = append(keep, f)
+					break
+				}
+			}
+		}
+		out = keep
+	}
+	return out
+}
+
+// PredicateAlternatives: the boolean result #ridx (-1: the only result) of the same-package call cl was val; for every
+// return of the callee that can yield val, the facts that hold there. nil if the callee cannot be analysed.
+func PredicateAlternatives(cl *ssa.Call, ridx int, val bool) [][]BoolFact {
+	return predicateAlts(cl, ridx, val, 0)
+}
+
+func predicateAlts(cl *ssa.Call, ridx int, val bool, depth int) [][]BoolFact {
 	callee := cl.Call.StaticCallee()
 	if callee == nil || len(callee.Blocks) == 0 || depth > 2 {
 		return nil
@@ -922,23 +989,7 @@ func predicateImplies(cl *ssa.Call, ridx int, val bool, depth int) []BoolFact {
 			expand(ret.Results[ridx], b, map[ssa.Value]bool{})
 		}
 	}
-	if len(alts) == 0 {
-		return nil
-	}
-	out := alts[0]
-	for _, a := range alts[1:] {
-		var keep []BoolFact
-		for _, f := range out {
-			for _, g := range a {
-				if f.Subj == g.Subj && f.Val == g.Val {
-					keep = append(keep, f)
-					break
-				}
-			}
-		}
-		out = keep
-	}
-	return out
+	return alts
 }
 
 var pkgCallersMemo = map[*ssa.Function][]ssa.Instruction{}
